@@ -507,3 +507,49 @@ func FirstDiff(a, b Big) string {
 	}
 	return ""
 }
+
+// SpareCapacity returns a deep copy of a in which every slice has `extra`
+// spare elements of capacity filled with stale (non-zero) values, as a slice
+// has after Decode trimmed it.
+func SpareCapacity(a Big, extra int, stale Big) Big {
+	b := Clone(a)
+	bv := reflect.ValueOf(&b).Elem()
+	sv := reflect.ValueOf(stale)
+	for i := 0; i < bv.NumField(); i++ {
+		f := bv.Field(i)
+		if f.Kind() != reflect.Slice || f.Type().Elem().Kind() == reflect.Struct {
+			continue
+		}
+		n := f.Len()
+		nv := reflect.MakeSlice(f.Type(), n+extra, n+extra)
+		reflect.Copy(nv, f)
+		// stale content in the spare part
+		src := sv.Field(i)
+		for k := 0; k < extra; k++ {
+			if src.Len() > 0 {
+				nv.Index(n + k).Set(src.Index(k % src.Len()))
+			}
+		}
+		f.Set(nv.Slice(0, n))
+	}
+	return b
+}
+
+// CloneCap is Clone preserving slice capacities and the content of the spare
+// capacity.
+func CloneCap(a Big) Big {
+	b := Clone(a)
+	av := reflect.ValueOf(a)
+	bv := reflect.ValueOf(&b).Elem()
+	for i := 0; i < av.NumField(); i++ {
+		f := av.Field(i)
+		if f.Kind() != reflect.Slice || f.IsNil() || f.Type().Elem().Kind() == reflect.Struct {
+			continue
+		}
+		full := f.Slice(0, f.Cap())
+		nv := reflect.MakeSlice(f.Type(), f.Cap(), f.Cap())
+		reflect.Copy(nv, full)
+		bv.Field(i).Set(nv.Slice(0, f.Len()))
+	}
+	return b
+}
